@@ -38,8 +38,11 @@ def gen_pre(rng, codec, enc_p=0.3, pool=ROUNDTRIP, lookalikes=True):
 
 
 def gen_meta(rng, enc_p=0.3, pool=ROUNDTRIP):
-    return {'obj': texts.json_object(rng), 'encoding': pick_enc(rng, enc_p,
-                                                                 pool)}
+    m = {'obj': texts.json_object(rng), 'encoding': pick_enc(rng, enc_p,
+                                                              pool)}
+    if rng.random() < 0.12:
+        m['line_endings'] = rng.choice(['unix', 'dos'])
+    return m
 
 
 def gen_diff(rng, enc_p=0.4, pool=ROUNDTRIP):
@@ -108,7 +111,12 @@ def annotate_droppable(doc):
         if kind == 'preamble':
             codec = sec.get('encoding') or inh
             if codec is None:
-                sec['_can_drop_le'] = True
+                data = sec['text'].encode('ascii')
+                k = sec.get('line_endings') or detect_kind_bytes(data, None)
+                nlb = newline_bytes(k, None)
+                if not data.endswith(nlb):
+                    data += nlb
+                sec['_can_drop_le'] = detect_kind_bytes(data, None) == k
                 continue
             raw, k, final, nlb = prepare_text(sec['text'], codec,
                                               sec.get('line_endings'),
@@ -176,7 +184,10 @@ def writer_calls(doc):
 
 
 def _enc_kw(sec):
-    return {'encoding': sec['encoding']} if sec.get('encoding') else {}
+    kw = {'encoding': sec['encoding']} if sec.get('encoding') else {}
+    if sec.get('line_endings') and 'obj' in sec:
+        kw['line_endings'] = sec['line_endings']
+    return kw
 
 
 def run_writer(calls, stream, writer_cls=None):
